@@ -198,6 +198,10 @@ func (s *serComp) Oracle(c Case, impl []string) string {
 			return fmt.Sprintf("%s: %s", o.Name, trunc([]byte(got)))
 		}
 		switch o.Name {
+		case "ser unescape":
+			if want := hx([]byte(refUnescape(string(o.Bytes[0])))); got != want {
+				return fmt.Sprintf("unescape of %q gives %q, documented result %q", o.Bytes[0], unhx(got), unhx(want))
+			}
 		case "ser cfg":
 			cfg = parseSerCfg(o.Strs)
 			if got != "ok" {
@@ -390,6 +394,10 @@ func (s *serComp) Generate(rng *rand.Rand, n int, emit func(Case)) {
 		}
 	}
 	rec(nil)
+	// a backslash in front of every byte value (escape characters are looked up in a table indexed by the byte)
+	for b := 0; b < 256; b++ {
+		emit(Case{Ops: []Op{{Name: "ser unescape", Bytes: [][]byte{{'a', '\\', byte(b), 'z'}}}}, Tag: "unescape-every-byte"})
+	}
 	for i := 0; i < n/20; i++ {
 		emit(Case{Ops: []Op{{Name: "ser unescape", Bytes: [][]byte{serValue(rng, false)}}}, Tag: "unescape-random"})
 	}
@@ -400,6 +408,9 @@ func (s *serComp) Generate(rng *rand.Rand, n int, emit func(Case)) {
 		}
 		if i%11 == 0 {
 			nf = 15 // exactly at the 1-byte map header limit
+		}
+		if i%13 == 5 {
+			nf = 62 + rng.Intn(12) // around 64 fields: per-field marks kept in machine words
 		}
 		names := make([]string, nf)
 		for j := range names {
@@ -416,9 +427,22 @@ func (s *serComp) Generate(rng *rand.Rand, n int, emit func(Case)) {
 		if i%31 == 0 && nf > 16 {
 			nenv = 16
 		}
+		if nf > 64 && nenv > 0 {
+			// the last fields of a wide schema are environment / hidden fields
+			for k, v := range perm {
+				if v == nf-1 {
+					perm[0], perm[k] = perm[k], perm[0]
+				}
+			}
+			for k, v := range perm {
+				if v == nf-2 && nenv < nf-1 {
+					perm[nenv], perm[k] = perm[k], perm[nenv]
+				}
+			}
+		}
 		env := perm[:nenv]
 		var hidden []int
-		if rng.Intn(2) == 0 && nenv < nf-1 {
+		if (rng.Intn(2) == 0 || nf > 64) && nenv < nf-1 {
 			hidden = perm[nenv : nenv+1]
 		}
 		rest := perm[nenv+len(hidden):]
